@@ -1,4 +1,247 @@
-import SteelVerif.C14.Model
+/-
+C14 — property theorems: modules expose exactly what they provide and are instantiated once.
+
+Model: `Model.lean`.  All theorems quantify over every module id / name, every require spec (any nesting
+of `only-in` / `prefix-in`), every acyclic module graph (modules listed in dependency order) and every
+sequence of evaluation requests, failing ones included; nothing is bounded.
+-/
+import SteelVerif.C14.LemmasTbl
 namespace SteelVerif.C14
-theorem stub_true : True := trivial
+
+/-! ## 1. Name mangling -/
+
+/-- **The mangled name determines the module and the name** — for all ids and all names, including
+names that contain digits, `_`, or the separator itself (the digit run after `##mm` is maximal because
+the separator starts with `_`). -/
+theorem mangle_injective {i j : Nat} {n m : Name} : mangle i n = mangle j m → i = j ∧ n = m :=
+  mangle_inj
+
+/-- A mangled name begins with `##`; so it is none of the identifiers that do not (`SourceIdent`: the
+reader rejects a bare identifier that begins with `##` — checked on the real reader by the harness;
+it does *not* hold for `|…|`-escaped identifiers, finding K14d). -/
+theorem mangle_not_user_writable (i : Nat) (n s : Name) (hs : SourceIdent s) : mangle i n ≠ s := by
+  intro e
+  exact hs (e ▸ mangle_hashhash i n)
+
+/-- Private (and all other) names of different modules never collide, whatever the names are; nor do
+two names of one module. -/
+theorem privates_disjoint {i j : Nat} (n m : Name) (h : i ≠ j) : mangle i n ≠ mangle j m :=
+  fun e => h (mangle_inj e).1
+
+theorem privates_distinct (i : Nat) {n m : Name} (h : n ≠ m) : mangle i n ≠ mangle i m :=
+  fun e => h (mangle_inj e).2
+
+/-- Non-vacuity / tie to the code's constants: module 5358, private `p`. -/
+example : mangle 5358 ['p'] = "##mm5358__%#__p".toList := by decide
+example : SourceIdent ['q', '.', 'f'] := by decide
+/-- K14d: the escaped identifier `|##mm1__%#__p|` denotes a name outside `SourceIdent`. -/
+example : ¬ SourceIdent (mangle 1 ['p']) := by decide
+
+/-! ## 2. Require modifiers -/
+
+/-- `parse_require_object_inner`: the flat form of any spec is its path, all `only-in` entries (inner
+lists first) and all prefixes concatenated outermost first. -/
+theorem flatten_is (s : Spec) : s.flatten = ⟨s.target, s.ids, s.prefixes⟩ := flatten_eq s
+
+theorem prefixes_concatenate_outer_first (p q : Name) (s : Spec) :
+    (Spec.prefixIn p (Spec.prefixIn q s)).flatten.pfx = p ++ (q ++ s.flatten.pfx) := by
+  simp [flatten_eq, Spec.prefixes]
+
+/-- **A name is bound in the requirer iff the module provides a name that survives the filter, and it
+is bound under prefix ++ (alias or name).**  For every spec and every provide list. -/
+theorem visible_iff_provided {β : Type} (s : Spec) (ex : List (Name × β)) (v : Name) :
+    (∃ n b, (v, n, b) ∈ s.flatten.importsM ex) ↔
+      ∃ n b, (n, b) ∈ ex ∧
+        ((s.ids = [] ∧ v = s.prefixes ++ n) ∨
+         (s.ids ≠ [] ∧ ∃ a, lookupLast s.ids n = some a ∧ v = s.prefixes ++ a.getD n)) := by
+  simp only [mem_importsM, rename_eq_some, flatten_eq]
+
+/-- The binding refers to the provided definition it was generated from (`(%proto-hash-get% … 'n)`). -/
+theorem import_refers_to_provided {β : Type} (r : Req) (ex : List (Name × β)) (v n : Name) (b : β) :
+    (v, n, b) ∈ r.importsM ex → (n, b) ∈ ex := fun h => ((mem_importsM r ex v n b).mp h).1
+
+/-- A provided name that an `only-in` does not list is not bound (using it is a free identifier:
+`tests/failure/require_only_in_missing_identifier.scm`). -/
+theorem only_in_missing_is_error {β : Type} (s : Spec) (ex : List (Name × β)) (n : Name)
+    (hne : s.ids ≠ []) (hn : n ∉ s.ids.map (·.1)) : ∀ v b, (v, n, b) ∉ s.flatten.importsM ex := by
+  intro v b h
+  rw [mem_importsM, rename_eq_some, flatten_eq] at h
+  rcases h.2 with ⟨he, _⟩ | ⟨_, a, ha, _⟩
+  · exact hne he
+  · rw [lookupLast_none _ _ hn] at ha
+    exact absurd ha (by simp)
+
+/-- S: an `only-in` that names an identifier the inner spec does not offer is ill-formed … -/
+theorem only_in_unknown_is_error_S {β : Type} (ex : Nat → List (Name × β)) (s : Spec)
+    (ids : List (Name × Option Name)) (inner : List (Name × β)) (hs : s.importsS ex = some inner)
+    (h : ∃ ia ∈ ids, inner.lookup ia.1 = none) : (Spec.onlyIn s ids).importsS ex = none := by
+  obtain ⟨ia, hia, hl⟩ := h
+  simp only [Spec.importsS, hs]
+  exact mapOpt_none _ _ ⟨ia, hia, by simp [hl]⟩
+
+/-- … while the code ignores it (part of finding K14c): `(only-in "m0" nope x)`. -/
+theorem only_in_unknown_ignored_M :
+    (Spec.onlyIn (.path 0) [(['n', 'o', 'p', 'e'], none), (['x'], none)]).flatten.importsM [(['x'], ())]
+      = [(['x'], ['x'], ())] ∧
+    (Spec.onlyIn (.path 0) [(['n', 'o', 'p', 'e'], none), (['x'], none)]).importsS
+      (fun _ => [(['x'], ())]) = none := by decide
+
+/-- **Flattening = composing** on the documented forms (`prefix-in`s around at most one `only-in` that
+sits on the path and lists distinct provided identifiers): the same names are bound to the same
+provided definitions. -/
+theorem flat_agrees_with_composition {β : Type} (ex : Nat → List (Name × β)) (s : Spec)
+    (hc : s.canonical (fun m => (ex m).map (·.1)) = true) (v : Name) (b : β) :
+    (∃ n, (v, n, b) ∈ s.flatten.importsM (ex s.target)) ↔ ∃ l, s.importsS ex = some l ∧ (v, b) ∈ l :=
+  flat_eq_compositional ex s hc v b
+
+/-- Outside that fragment they differ (open finding K14c).  With `m0` providing `x`, `y`:
+`(only-in (prefix-in a. "m0") x)` binds `a.x` (S: ill-formed), `(only-in "m0")` binds everything
+(S: nothing), `(only-in (only-in "m0" x y) x)` binds `x` and `y` (S: `x`). -/
+theorem flat_differs_from_composition :
+    let ex : Nat → List (Name × Unit) := fun _ => [(['x'], ()), (['y'], ())]
+    let bound := fun (s : Spec) => (s.flatten.importsM (ex 0)).map (·.1)
+    let boundS := fun (s : Spec) => (s.importsS ex).map (·.map (·.1))
+    bound (.onlyIn (.prefixIn ['a', '.'] (.path 0)) [(['x'], none)]) = [['a', '.', 'x']] ∧
+    boundS (.onlyIn (.prefixIn ['a', '.'] (.path 0)) [(['x'], none)]) = none ∧
+    bound (.onlyIn (.path 0) []) = [['x'], ['y']] ∧
+    boundS (.onlyIn (.path 0) []) = some [] ∧
+    bound (.onlyIn (.onlyIn (.path 0) [(['x'], none), (['y'], none)]) [(['x'], none)]) = [['x'], ['y']] ∧
+    boundS (.onlyIn (.onlyIn (.path 0) [(['x'], none), (['y'], none)]) [(['x'], none)]) = some [['x']] := by
+  decide
+
+/-- Non-vacuity: `(prefix-in b- (prefix-in q. (only-in "m0" x (f ff))))` binds `b-q.x`, `b-q.ff`. -/
+example :
+    ((Spec.prefixIn ['b', '-'] (.prefixIn ['q', '.'] (.onlyIn (.path 0) [(['x'], none), (['f'], some ['f', 'f'])]))).flatten.importsM
+      [(['x'], 1), (['y'], 2), (['f'], 3)]) =
+    [(['b', '-', 'q', '.', 'x'], ['x'], 1), (['b', '-', 'q', '.', 'f', 'f'], ['f'], 3)] := by decide
+
+/-! ## 3. Instantiation -/
+
+/-- **Every module body is evaluated at most once per engine, and exactly once as soon as a request
+that is not made to fail needs it (transitively)** — for every acyclic graph and every sequence of
+requests, whichever of them fail at compile time, at build time or at run time.  (`runRequestsI true`
+is the code since commit d10f8017: both failure paths restore the module table and the metadata.) -/
+theorem instantiated_once (g : Graph) (hwf : g.wf = true) (reqs : List Request)
+    (hreq : ∀ r ∈ reqs, r.wfIn g) :
+    let st := runRequestsI true g {} reqs
+    (∀ k, st.count k ≤ 1) ∧
+    (∀ r ∈ reqs, (r.mode = .ok ∨ r.mode = .failRuntime) → ∀ k ∈ r.needs g, st.count k = 1) := by
+  intro st
+  have hk := run_kinv hwf true reqs {} hreq (Or.inl rfl) (kinv_init g)
+  refine ⟨fun k => count_le_one_of_nodup hk.nd k, ?_⟩
+  intro r hr hm k hkn
+  exact count_eq_one_of_nodup hk.nd (run_needs hwf true reqs {} hreq (Or.inl rfl) (kinv_init g) r hr hm k hkn)
+
+/-- … and nothing else is ever evaluated: a body that ran is needed by a request that got as far as
+running (for every graph, acyclic or not, and either roll-back). -/
+theorem instantiated_only_if_needed (b : Bool) (g : Graph) (reqs : List Request) (k : Nat)
+    (h : 0 < (runRequestsI b g {} reqs).count k) :
+    ∃ r ∈ reqs, (r.mode = .ok ∨ r.mode = .failRuntime) ∧ k ∈ r.needs g := by
+  have hk : k ∈ (runRequestsI b g {} reqs).inst := List.count_pos_iff.mp h
+  rcases run_inst_sub b g reqs {} k hk with e | e
+  · simp at e
+  · exact e
+
+/-- A program that is not made to fail is never rejected because of what failed before it. -/
+theorem good_request_runs (g : Graph) (hwf : g.wf = true) (reqs : List Request)
+    (hreq : ∀ r ∈ reqs, r.wfIn g) (r : Request) (hr : r.wfIn g) (hm : r.mode = .ok) :
+    (evalRequestI true g (runRequestsI true g {} reqs) r.specs r.mode).2.1 = .ok := by
+  have hk := run_kinv hwf true reqs {} hreq (Or.inl rfl) (kinv_init g)
+  have := (evalRequestI_kinv hwf true _ r.specs r.mode (Or.inl rfl) hr hk).2 (Or.inl hm)
+  simpa [hm] using this.2
+
+/-- The code before d10f8017 (`rollbackBoth = false`), kept as a regression witness: *at most once*
+held for every request sequence … -/
+theorem instantiated_at_most_once_legacy (g : Graph) (hwf : g.wf = true) (reqs : List Request) :
+    ∀ k, (runRequestsI false g {} reqs).count k ≤ 1 := by
+  intro k
+  have hj := run_jinv hwf false reqs {} ⟨by simp, by simp⟩
+  exact count_le_one_of_nodup hj.nd k
+
+/-- … *exactly once* held as long as no request failed when its program was built … -/
+theorem instantiated_once_legacy_partial (g : Graph) (hwf : g.wf = true) (reqs : List Request)
+    (hreq : ∀ r ∈ reqs, r.wfIn g) (hG : ∀ r ∈ reqs, r.mode ≠ .failBuild) :
+    ∀ r ∈ reqs, (r.mode = .ok ∨ r.mode = .failRuntime) →
+      ∀ k ∈ r.needs g, (runRequestsI false g {} reqs).count k = 1 := by
+  intro r hr hm k hkn
+  have hk := run_kinv hwf false reqs {} hreq (Or.inr hG) (kinv_init g)
+  exact count_eq_one_of_nodup hk.nd (run_needs hwf false reqs {} hreq (Or.inr hG) (kinv_init g) r hr hm k hkn)
+
+/-- … and failed otherwise (finding K14a, corpus d02): a module without provides, a request that has a
+free identifier, then a good request: the body is never evaluated (and the repaired machine does). -/
+theorem instantiated_once_legacy_fails :
+    let g : Graph := [⟨[['x']], [], [], []⟩]
+    let reqs : List Request := [{ specs := [.path 0], mode := .failBuild }, { specs := [.path 0] }]
+    g.wf = true ∧ (runRequestsI false g {} reqs).count 0 = 0 ∧ (runRequestsI true g {} reqs).count 0 = 1 := by
+  decide
+
+/-- Non-vacuity: a diamond `3 → {1, 2} → 0`; a failing request, the diamond's top, then its parts again
+in another order: every body exactly once. -/
+theorem example_diamond :
+    let m := fun (reqs : List Spec) => (⟨[['x']], [⟨['x'], false⟩], reqs, []⟩ : Module)
+    let g : Graph := [m [], m [.path 0], m [.prefixIn ['a', '.'] (.path 0)], m [.path 1, .path 2]]
+    let reqs : List Request := [{ specs := [.path 2], mode := .failBuild }, { specs := [.path 3] },
+      { specs := [.path 1, .path 0], mode := .failCompile }, { specs := [.path 0, .path 2] }]
+    g.wf = true ∧ (runRequestsI true g {} reqs).inst = [0, 1, 2, 3] := by
+  decide
+
+/-! ## 4. Isolation in the global table -/
+
+/-- **A module body defines only its own mangled names** (the code since 1587f6f5), so it changes
+neither a name of another module — even one spelled the same — nor any global a program can write. -/
+theorem module_isolation (g : Graph) (st st' : MState) (k : Nat) (fix : Fix)
+    (hfix : fix.contractImports = true) (h : runModule fix g st k = some st') :
+    (∀ j n, j ≠ k → st'.tbl.lookup (mangle j n) = st.tbl.lookup (mangle j n)) ∧
+    (∀ s, SourceIdent s → st'.tbl.lookup s = st.tbl.lookup s) := by
+  obtain ⟨imps, _, hkeep⟩ := runModule_tbl fix g st st' k h
+  rw [hfix] at hkeep
+  constructor
+  · intro j n hj
+    apply hkeep
+    intro hmem
+    obtain ⟨n', e⟩ := moduleWrites_mangled k (g.mod k) imps _ hmem
+    exact hj (mangle_inj e).1
+  · intro s hs
+    apply hkeep
+    intro hmem
+    obtain ⟨n', e⟩ := moduleWrites_mangled k (g.mod k) imps _ hmem
+    exact mangle_not_user_writable k n' s hs e.symm
+
+/-- **The requiring program's own definitions and imports do not touch any module's names**: binding
+source identifiers leaves every mangled key as it was. -/
+theorem program_isolation (tbl : List (Name × Val)) (binds : List (Name × Val))
+    (hsrc : ∀ b ∈ binds, SourceIdent b.1) (j : Nat) (n : Name) :
+    (binds.foldl (fun t b => b :: t) tbl).lookup (mangle j n) = tbl.lookup (mangle j n) := by
+  apply lookup_foldl_cons (mangle j n) (fun b : Name × Val => b)
+  intro b hb e
+  exact mangle_not_user_writable j n b.1 (hsrc b hb) e.symm
+
+/-- **Contracts are attached at the module boundary only**: inside the module a definition is bound
+to the bare definition; what the module hands out for a `(contract/out name c)` provide carries the
+contract (and a plain provide hands out whatever the name is bound to). -/
+theorem contract_at_boundary_only (g : Graph) (st st' : MState) (k : Nat) (fix : Fix)
+    (h : runModule fix g st k = some st') :
+    (∀ d ∈ (g.mod k).defs, st'.tbl.lookup (mangle k d) = some ⟨.mod k, d, false⟩) ∧
+    (∃ hash, st'.hashes.lookup k = some hash ∧
+      ∀ e ∈ hash, ∃ p ∈ (g.mod k).provs, p.name = e.name ∧ e.cform = p.contract ∧
+        (p.contract = true → e.val.contracted = true)) :=
+  ⟨runModule_own_defs fix g st st' k h, runModule_hash fix g st st' k h⟩
+
+/-- Non-vacuity: `m0` provides `f` through `contract/out`; its own `f` is bare, the exported one is not. -/
+example :
+    let g : Graph := [⟨[['f']], [⟨['f'], true⟩], [], []⟩]
+    (runModule {} g {} 0).map (fun st =>
+      (st.tbl.lookup (mangle 0 ['f']), (st.hashes.lookup 0).map (·.map (·.val.contracted)))) =
+    some (some ⟨.mod 0, ['f'], false⟩, some [true]) := by decide
+
+/-- Before 1587f6f5 (regression witness, finding K14b, corpus d03): a `contract/out` import under a
+prefix was defined as the *global* `q.f`. -/
+theorem module_isolation_legacy_fails :
+    let g : Graph := [⟨[['f']], [⟨['f'], true⟩], [], []⟩, ⟨[], [], [.prefixIn ['q', '.'] (.path 0)], []⟩]
+    let run := fun (fix : Fix) =>
+      ((runModule fix g {} 0).bind fun st => runModule fix g st 1).map fun st =>
+        (st.tbl.lookup ['q', '.', 'f']).isSome
+    run { contractImports := false } = some true ∧ run {} = some false := by
+  decide
+
 end SteelVerif.C14
